@@ -80,9 +80,10 @@ def window_cases(seed=0):
     dev = device()
     for trial in range(6):
         window = int(rng.integers(1, 5))
+        screening = bool(trial % 2)
         opts = tdgl.SolverOptions(solve_time=1, adaptive=True, adaptive_window=window, dt_init=1e-3, dt_max=float(rng.choice([5e-3, 1e-1])),
-                                  max_solve_retries=5, adaptive_time_step_multiplier=0.5)
-        s = TDGLSolver(dev, opts)
+                                  max_solve_retries=5, adaptive_time_step_multiplier=0.5, include_screening=screening)
+        s = TDGLSolver(dev, opts, applied_vector_potential=(0.4 if screening else 0.0))
         real = TDGLSolver.solve_for_psi_squared
         schedule = {int(k): int(rng.integers(1, 3)) for k in rng.choice(np.arange(2, 14), size=4, replace=False)}
         state = dict(step=0, time=0.0, dt=opts.dt_init)
@@ -99,7 +100,7 @@ def window_cases(seed=0):
                     return None
                 return real(**kw)
             s.solve_for_psi_squared = fake
-            rs = RunningState({"dt": 1, "mu": 2, "theta": 2}, 1)
+            rs = RunningState({"dt": 1, "mu": 2, "theta": 2, "screening_iterations": 1}, 1)
             state.update(step=step)
             tent_before = s.tentative_dt
             old = np.abs(vals["psi"]) ** 2
@@ -108,7 +109,9 @@ def window_cases(seed=0):
             dt_used = res.dt
             deltas.append(float(np.abs(np.abs(res.psi) ** 2 - old).max()))
             want_dt = tent_before * 0.5 ** schedule.get(step, 0)
-            case = dict(trial=trial, step=step, window=window, refusals=schedule.get(step, 0), dt_max=opts.dt_max)
+            case = dict(trial=trial, step=step, window=window, refusals=schedule.get(step, 0), dt_max=opts.dt_max, include_screening=screening)
+            if len(s.d_psi_sq_vals) != step + 1:
+                bad.append(dict(case, what="the history of |psi|^2 changes does not hold exactly one entry per completed step", entries=len(s.d_psi_sq_vals)))
             if not (0 < dt_used <= opts.dt_max) or abs(dt_used - want_dt) > 1e-12 * want_dt:
                 bad.append(dict(case, what="dt used is not tentative_dt*multiplier^refusals or out of (0, dt_max]", dt=dt_used, want=want_dt))
             if abs(rs.values["dt"][0, 0] - dt_used) > 0:
